@@ -27,14 +27,14 @@ def gen_lines(rnd, tier):
     L = []
     first = 100
     for posonly, pos, va, kwonly, kw, nloc in itertools.product(range(3), range(4), (0, 1), range(3), (0, 1), (0, 2)):
-        kinds = ["F", "M", "I"]
+        kinds = ["F", "M", "I", "A"]
         if posonly == 0 and pos == 0 and va:
             kinds.append("S")
         for kind in kinds:
-            total = posonly + pos + (1 if kind == "M" else 0)
-            nds = sorted({0, 1, total // 2, total - 1 if kind == "M" else total, total} & set(range(0, total + 1)))
+            total = posonly + pos + (1 if kind in "MA" else 0)
+            nds = sorted({0, 1, total // 2, total - 1 if kind in "MA" else total, total} & set(range(0, total + 1)))
             for ndef in nds:
-                if kind == "M" and ndef == total and total > 0 and rnd.random() < 0.7:
+                if kind in "MA" and ndef == total and total > 0 and rnd.random() < 0.7:
                     continue                   # a default for `self` itself: legal, kept for a sample only
                 kwd = "-" if not kwonly else "".join(rnd.choice("01") for _ in range(kwonly))
                 first += 7
